@@ -47,8 +47,13 @@ func main() {
 		if a.N == 0 {
 			nStress = 0
 		}
+		if nStress > 0 {
+			fmt.Fprintln(w, emitStress(fmt.Sprintf("c20-zvol-%d", a.Seed), scaseT{G: 1, Volume: 3000 + r.Intn(6000), Seed: 1}, st))
+		}
 		for i := 0; i < nStress; i++ {
-			fmt.Fprintln(w, emitStress(fmt.Sprintf("c20-z-%d-%d", a.Seed, i), genStress(r, millis), st))
+			k := genStress(r, millis)
+			k.Batch = i%3 == 1 // every third history goes through a BatchLogger
+			fmt.Fprintln(w, emitStress(fmt.Sprintf("c20-z-%d-%d", a.Seed, i), k, st))
 		}
 		st.Emit(w)
 	case "replay":
